@@ -588,7 +588,7 @@ func runC15GobMulti(c *Ctx) *Violation {
 	m := mxj.Map{}
 	var descr []string
 	for _, k := range keys {
-		doc := genJSONDoc(t, JSONOpts{SingleKey: true, MaxDepth: 3})
+		doc := genJSONDoc(t, JSONOpts{SingleKey: true, MaxDepth: 3, Nulls: t.Draw(3) == 2})
 		var v mxj.Map
 		var err error
 		if vv := safely(c, "gen", func() { v, err = mxj.NewMapJson([]byte(doc)) }); vv != nil || err != nil {
@@ -601,7 +601,11 @@ func runC15GobMulti(c *Ctx) *Violation {
 		descr = append(descr, k+":"+doc)
 	}
 	stepsBefore := c.Steps
-	g := canonicalGob(m, keys)
+	var g []byte
+	if v := safely(c, "Gob", func() { g = canonicalGob(m, keys) }); v != nil {
+		c.Put("map", strings.Join(descr, " "))
+		return v
+	}
 	c.Steps = stepsBefore // the number of retries follows encoding/gob's map walk: not part of the case
 	if g == nil {
 		return nil
@@ -679,7 +683,7 @@ func runC15Gob(c *Ctx) *Violation {
 	}
 	// single-key objects only: encoding/gob walks maps in hash order, so only such
 	// values have one encoding and hence a replayable corruption
-	doc := genJSONDoc(t, JSONOpts{SingleKey: true, MaxDepth: 5})
+	doc := genJSONDoc(t, JSONOpts{SingleKey: true, MaxDepth: 5, Nulls: t.Draw(2) == 1})
 	var m mxj.Map
 	var err error
 	if v := safely(c, "gen", func() { m, err = mxj.NewMapJson([]byte(doc)) }); v != nil || err != nil {
@@ -755,7 +759,7 @@ func runC15Gob(c *Ctx) *Violation {
 // This clause has no schedule or fault dimension: it is seeded input generation
 // run inside the same harness and counted separately (probe.t5_*).
 
-var pathSegs = []string{"a", "b", "k", "name", "list", "*", "", "-id", "#text", "x y", "a[0]", "b[1]", "list[2]", "*[0]", "a[-1]", "a[99999999999]", "a[", "a]", "a[x]", "[0]", "a[0", "a[]", "a[0][1]", "é", "a[1]x", "a]1[", "]a[0]", "][", "]0["}
+var pathSegs = []string{"a", "b", "k", "name", "list", "*", "", "-id", "#text", "x y", "a[0]", "b[1]", "list[2]", "*[0]", "a[-1]", "a[99999999999]", "a[", "a]", "a[x]", "[0]", "a[0", "a[]", "a[0][1]", "é", "a[1]x", "a]1[", "]a[0]", "][", "]0[", "a[9223372036854775807]", "a[2147483647]", "a[2147483648]", "a[4294967296]", "b[18446744073709551615]", "list[9223372036854775806]"}
 var subKeys = []string{"a:v", "k:1", ":x", "x:", "!a:v", "!:x", "a:*", "!a:*", "a:1:num", "a:true:bool", "a:v:string", "a:b:c:d", "a", "", ":", "!", "a:x:float", "a:t:boolean", "-id:1", "k|v", "a:v:bogus", "::", "!:", "*:*", "a:maybe:bool", "a:NaN:num", "a:0x:float", "a::num", "!!a:v", "!", "a:v:string:x", "a::", "k:1:numeric", "k:T:boolean", "a:v:char", "a:v:text"}
 var newVals = []string{"a:v", "k:2:num", "a:true:bool", ":x", "x", "a:b:c:d", "", ":", "a:z:bogus", "k:notnum:num", "#text:t", "k:notbool:bool", "k:1:int", "k:1.5:float", "k::num", "::", "a:1:numeric", "*:v", "a[0]:v"}
 var keyPairs = []string{"a:b", "a", "a:b.c", "list:l.m", "*:x", "a:*", "a:b[0]", ":", "a:", ":b", "a:b:c", "", "a.b:c.d", "list[0]:z", "a[-1]:q", "k:a.b.c.", "name:a", "a:a.b", "a:b..c", "a:.b", "a:b.", "b:x.y", "a:x", "*.*:x.y", "a: b", " a:b", "a.b.c:a"}
@@ -791,7 +795,7 @@ func runC15Args(c *Ctx) *Violation {
 	t := c.T
 	doc := genJSONDoc(t, JSONOpts{Nulls: true, MaxDepth: 4})
 	if t.Draw(3) == 2 {
-		doc = `{"":` + doc + `,"a":{"":"e","b":[1,{"":2}]},"*":{"k":"v","*":[{"a":1}]}}`
+		doc = `{"":` + doc + `,"a":{"":"e","b":[1,{"":2}]},"*":{"k":"v","*":[{"a":1}]},"n":[null,{"k":1}],"m":[null],"list":[null,"s",{"a":null}]}`
 	}
 	var m mxj.Map
 	var err error
@@ -854,6 +858,11 @@ func runC15Args(c *Ctx) *Violation {
 			var kp []string
 			for j, n := 0, 1+t.Small(3); j < n; j++ {
 				kp = append(kp, keyPairs[t.Draw(len(keyPairs))])
+			}
+			if t.Draw(4) == 3 {
+				// new paths that extend each other: the second walks through what the first stored
+				src := []string{"a", "b", "n", "m", "list", "k", "*", "name"}
+				kp = []string{src[t.Draw(len(src))] + ":x", src[t.Draw(len(src))] + ":x.y", src[t.Draw(len(src))] + ":x.y.z"}[:2+t.Draw(2)]
 			}
 			// on a private copy: with overlapping new paths NewMap aliases values of its
 			// receiver into the result and can even make the receiver cyclic (property
